@@ -14,7 +14,7 @@ from collections import Counter
 import vlib
 
 THEOREMS = [
-    "csv_codec_roundtrip", "csv_reader_roundtrip", "csv_header_drops_first_record", "csv_file_roundtrip",
+    "csv_codec_roundtrip", "csv_reader_roundtrip", "csv_header_drops_first_record", "csv_file_roundtrip", "copy_to_replaces", "csv_file_roundtrip_any_previous", "reexport_smaller",
     "table_roundtrip_partial", "table_roundtrip_typed",
     "table_roundtrip_full_unsound", "null_cell_old_writer_unsound", "null_cell_regression", "empty_string_unsound", "zero_interval_unsound",
     "escape_option_regression", "blob_column_regression", "header_regression",
